@@ -7,7 +7,10 @@ def rules : Rules := {}
 
 def txStep (s : St) (ws : List String) : St × String :=
   match ws with
-  | ["tx", prices, units, sponsor, now, ts, maxFee, cid, auth, scope, actions] =>
+  | ["tx", prices, units, sponsor, actor, now, ts, maxFee, cid, auth, scope, actions] =>
+    -- `actor` (Auth.Actor) is only handed to the actions; scripted actions ignore it and the fee
+    -- is deducted from the sponsor
+    if (parseHex actor).map (·.length) != some 33 then (s, "bad-op") else
     match parseDims prices, (if units == "err" then some none else (parseDims units).map some), parseHex sponsor, parseInt now, parseInt ts,
       parseNat maxFee, parseRange auth, parseScope scope, parseActions actions with
     | some prices, some units, some sponsor, some now, some ts, some maxFee, some (as, ae),
